@@ -380,7 +380,8 @@ def oracle(inp, isegs, wire, expect):
                 return "queued CON %s was never written and reported by %d NACKs (%s)" % (t, len(ns), ns)
             if kind == "N" and ns and not (tls and len(ns) == 1):
                 return "queued NON %s was NACKed (%s)" % (t, ns)
-        elif kind == "C" and not ns and not rsps.get(t):
+        elif kind == "C" and not ns and not rsps.get(t) and not (tls and "rel" in cfg):
+            # (a request WRITTEN on a reliable transport is not tracked any more: releasing the session then is silent)
             return "queued CON %s was written but has neither a response nor a NACK at the end" % t
     ded = [t for i, t in enumerate(reqs) if t not in reqs[:i]]
     if "x" not in fates and ded != sorted(ded):          # a lost datagram legitimately lets a later message overtake
